@@ -153,6 +153,11 @@ Lemma peek_until_at_cons p cs pos pre a c rest : cs = pre ++ a ++ c :: rest -> p
   forallb (fun c => negb (p c)) a = true -> p c = true -> peek_until p cs pos = (a, true).
 Proof. intros E1 E2 Ha Hc. rewrite (peek_until_at p cs pos pre a (c :: rest) E1 E2 Ha Hc). reflexivity. Qed.
 
+Definition not_rpar (c : N) : bool := negb (c =? ch_rpar)%N.
+Definition not_excl (c : N) : bool := negb (c =? ch_excl)%N.
+Ltac clear_all := repeat match goal with H : _ |- _ => clear H end.
+Ltac len_eq' := clear_all; len_eq.
+
 Section Headline.
   Variables (ln : nat) (r : s_record).
   Hypothesis Wd : wf_date (sr_date r) = true.
@@ -190,11 +195,11 @@ Section Headline.
       assert (Uhead : forall x, match ru ++ x with c :: _ => is_space_or_tab c = false | [] => True end).
       { intros x. destruct ru as [|c t]; [congruence|].
         cbn [app forallb] in *. apply andb_true_iff in Uc as [H _]. unfold dur_char, is_digit in H. unfold is_space_or_tab. lia. }
-      assert (U41 : forallb (fun c => negb (c =? ch_rpar)%N) (ru ++ [33%N]) = true).
+      assert (U41 : forallb not_rpar (ru ++ [33%N]) = true).
       { rewrite forallb_app. apply andb_true_iff; split; [|reflexivity].
-        revert Uc. apply forallb_impl. intros c. unfold dur_char, is_digit, ch_rpar. lia. }
-      assert (U33 : forallb (fun c => negb (c =? ch_excl)%N) ru = true).
-      { revert Uc. apply forallb_impl. intros c. unfold dur_char, is_digit, ch_excl. lia. }
+        revert Uc. apply forallb_impl. intros c. unfold dur_char, is_digit, not_rpar, ch_rpar. lia. }
+      assert (U33 : forallb not_excl ru = true).
+      { revert Uc. apply forallb_impl. intros c. unfold dur_char, is_digit, not_excl, ch_excl. lia. }
       remember (repeat 32%N (S extra)) as sp eqn:Esp.
       assert (Hsp : forallb is_space_or_tab sp = true) by (subst sp; apply ascii_repeat_space_blank).
       assert (Hsp0 : exists s', sp = 32%N :: s') by (subst sp; eexists; reflexivity).
@@ -210,28 +215,28 @@ Section Headline.
       rewrite (skip_while_all_at is_space_or_tab cs (length rd) rd sp (40%N :: ru ++ [33; 41]%N ++ trail)
                  ltac:(rewrite Ecs; app_eq) eq_refl Hsp eq_refl).
       rewrite (peek_at_cons cs (length rd + length sp) (rd ++ sp) 40%N (ru ++ [33; 41]%N ++ trail)
-                 ltac:(rewrite Ecs; app_eq) ltac:(len_eq)).
+                 ltac:(rewrite Ecs; app_eq) ltac:(len_eq')).
       change (40 =? ch_lpar)%N with true. cbv iota.
       rewrite (skip_while_stay is_space_or_tab cs (S (length rd + length sp)) (rd ++ sp ++ [40%N]) (ru ++ [33; 41]%N ++ trail)
-                 ltac:(rewrite Ecs; app_eq) ltac:(len_eq) (Uhead _)).
+                 ltac:(rewrite Ecs; app_eq) ltac:(len_eq') (Uhead _)).
       rewrite (peek_until_at_cons (fun c => (c =? ch_rpar)%N) cs (S (length rd + length sp)) (rd ++ sp ++ [40%N]) (ru ++ [33%N]) 41%N trail
-                 ltac:(rewrite Ecs; app_eq) ltac:(len_eq) U41 eq_refl).
+                 ltac:(rewrite Ecs; app_eq) ltac:(len_eq') U41 eq_refl).
       cbv iota beta. change (negb true) with false. cbv iota.
-      replace (Nat.eqb (length (ru ++ [33%N])) 0) with false by (rewrite app_length; cbn [length]; symmetry; apply Nat.eqb_neq; lia).
+      replace (Nat.eqb (length (ru ++ [33%N])) 0) with false by (rewrite app_length; cbn [length]; symmetry; apply Nat.eqb_neq; clear; lia).
       cbv iota.
       rewrite (peek_until_at_cons (fun c => (c =? ch_excl)%N) cs (S (length rd + length sp)) (rd ++ sp ++ [40%N]) ru 33%N (41%N :: trail)
-                 ltac:(rewrite Ecs; app_eq) ltac:(len_eq) U33 eq_refl).
+                 ltac:(rewrite Ecs; app_eq) ltac:(len_eq') U33 eq_refl).
       cbv iota beta. change (negb true) with false. cbv iota.
       unfold parser_duration, str. rewrite (utf8_encode_ascii _ Uas), Pu.
       rewrite (skip_while_stay is_space_or_tab cs (S (length rd + length sp) + length ru + 1) (rd ++ sp ++ [40%N] ++ ru ++ [33%N]) (41%N :: trail)
-                 ltac:(rewrite Ecs; app_eq) ltac:(len_eq) eq_refl).
+                 ltac:(rewrite Ecs; app_eq) ltac:(len_eq') eq_refl).
       rewrite (peek_at_cons cs (S (length rd + length sp) + length ru + 1) (rd ++ sp ++ [40%N] ++ ru ++ [33%N]) 41%N trail
-                 ltac:(rewrite Ecs; app_eq) ltac:(len_eq)).
+                 ltac:(rewrite Ecs; app_eq) ltac:(len_eq')).
       change (41 =? ch_rpar)%N with true. change (negb true) with false. cbv iota.
       rewrite (skip_while_all_at is_space_or_tab cs (S (S (length rd + length sp) + length ru + 1)) (rd ++ sp ++ [40%N] ++ ru ++ [33; 41]%N) trail []
-                 ltac:(rewrite Ecs, app_nil_r; app_eq) ltac:(len_eq) Wt I).
+                 ltac:(rewrite Ecs, app_nil_r; app_eq) ltac:(len_eq') Wt I).
       replace (Z.of_nat (S (S (length rd + length sp) + length ru + 1) + length trail) <? zlen cs) with false; [reflexivity|].
-      symmetry. apply Z.ltb_ge. unfold zlen. rewrite Ecs. apply Nat2Z.inj_le. len_eq.
+      symmetry. apply Z.ltb_ge. unfold zlen. rewrite Ecs. apply Nat2Z.inj_le. len_eq'.
     - (* without *)
       clear Etr.
       remember (rd ++ [] ++ trail) as cs eqn:Ecs. cbn [app] in Ecs.
@@ -242,10 +247,218 @@ Section Headline.
       rewrite (peek_until_at is_space_or_tab cs 0 [] rd trail Ecs eq_refl Dnb Thead).
       cbv iota beta. unfold str at 1. rewrite (utf8_encode_ascii _ Das), Pd.
       rewrite (skip_while_all_at is_space_or_tab cs (length rd) rd trail [] ltac:(rewrite Ecs, app_nil_r; reflexivity) eq_refl Wt I).
-      rewrite (peek_at_end cs (length rd + length trail) ltac:(rewrite Ecs; len_eq)).
+      rewrite (peek_at_end cs (length rd + length trail) ltac:(rewrite Ecs; len_eq')).
       change (rune_error =? ch_lpar)%N with false. cbv iota.
-      rewrite (skip_while_stay is_space_or_tab cs (length rd + length trail) cs [] (eq_sym (app_nil_r cs)) ltac:(rewrite Ecs; len_eq) I).
+      rewrite (skip_while_stay is_space_or_tab cs (length rd + length trail) cs [] (eq_sym (app_nil_r cs)) ltac:(rewrite Ecs; len_eq') I).
       replace (Z.of_nat (length rd + length trail) <? zlen cs) with false; [reflexivity|].
-      symmetry. apply Z.ltb_ge. unfold zlen. rewrite Ecs. apply Nat2Z.inj_le. len_eq.
+      symmetry. apply Z.ltb_ge. unfold zlen. rewrite Ecs. apply Nat2Z.inj_le. len_eq'.
   Qed.
 End Headline.
+
+(* ================= record summary lines ================= *)
+
+Lemma find_indentation_none b0 x : is_space_or_tab b0 = false -> find_indentation (b0 :: x) = None.
+Proof.
+  unfold is_space_or_tab. intros H. unfold find_indentation, indentations. cbn [find has_prefix].
+  replace (32 =? b0)%N with false by lia. replace (9 =? b0)%N with false by lia. reflexivity.
+Qed.
+
+Lemma blank_char_is_zs c : blank_char c = is_zs c || (c =? 9)%N.
+Proof. unfold blank_char. rewrite orb_comm. reflexivity. Qed.
+
+Lemma all_blank_runes_eq t : all_blank_runes t = all_blank t.
+Proof. unfold all_blank_runes, all_blank. induction t as [|c t IH]; [reflexivity|]. cbn [forallb]. rewrite IH, blank_char_is_zs. reflexivity. Qed.
+
+(* the first byte of the encoding of a text whose first rune is not a blank is not a blank *)
+Lemma encode_head_not_blank c t : is_space_or_tab c = false ->
+  exists b0 x, utf8_encode (c :: t) = b0 :: x /\ is_space_or_tab b0 = false.
+Proof.
+  intros H. unfold utf8_encode. cbn [flat_map]. destruct (encode_rune_bytes c) as [[Hc ->] | [Hc Hb]].
+  - eexists; eexists; split; [reflexivity|exact H].
+  - destruct (encode_rune c) as [|b0 r] eqn:E; [exfalso; exact (encode_rune_nonempty c E)|].
+    inversion Hb; subst. eexists; eexists; split; [reflexivity|]. unfold is_space_or_tab. lia.
+Qed.
+
+Lemma blank_char_space_or_tab c : blank_char c = false -> is_space_or_tab c = false.
+Proof. unfold blank_char, space_separator, is_space_or_tab. lia. Qed.
+
+Lemma parse_summary_lines_spec summ : forallb summary_line_ok summ = true ->
+  forall ls ln rest acc, map l_text ls = map utf8_encode summ ->
+  parse_summary_lines ln (ls ++ rest) acc [] =
+  match rest with
+  | [] => (acc ++ map utf8_encode summ, [], None, [], (ln + length summ)%nat)
+  | l :: _ =>
+    match find_indentation (l_text l) with
+    | Some st => (acc ++ map utf8_encode summ, [], Some st, rest, (ln + length summ)%nat)
+    | None => parse_summary_lines (ln + length summ) rest (acc ++ map utf8_encode summ) []
+    end
+  end.
+Proof.
+  induction summ as [|t summ IH]; intros W ls ln rest acc M.
+  - destruct ls; [|discriminate]. cbn [app map length]. rewrite app_nil_r, Nat.add_0_r.
+    destruct rest as [|l r]; [reflexivity|]. cbn [parse_summary_lines].
+    destruct (find_indentation (l_text l)); reflexivity.
+  - destruct ls as [|l ls]; [discriminate|]. cbn [map] in M. injection M as Ml M.
+    cbn [forallb] in W. apply andb_true_iff in W as [Wt W].
+    unfold summary_line_ok in Wt. apply andb_true_iff in Wt as [Tok Hd].
+    destruct t as [|c t']; [discriminate|]. apply negb_true_iff in Hd.
+    destruct (encode_head_not_blank c t' (blank_char_space_or_tab c Hd)) as (b0 & x & Eb & Hb0).
+    cbn [app parse_summary_lines]. rewrite Ml, Eb, (find_indentation_none _ _ Hb0). rewrite <- Eb.
+    rewrite (decode_encode _ Tok). rewrite <- blank_char_is_zs, Hd.
+    rewrite (IH W ls (S ln) rest (acc ++ [str (c :: t')]) M).
+    cbn [map length]. rewrite <- !app_assoc. cbn [app]. replace (S ln + length summ)%nat with (ln + S (length summ))%nat by lia.
+    reflexivity.
+Qed.
+
+(* ================= entry summary continuation lines ================= *)
+
+Definition no_double_prefix (style : bytes) (rest : list line) : Prop :=
+  match rest with l :: _ => has_prefix (style ++ style) (l_text l) = false | [] => True end.
+
+Lemma parse_more_spec i more : forallb (fun t => text_ok t && negb (all_blank t)) more = true ->
+  let ind := indent_text i in
+  forall ls ln rest acc, map l_text ls = map (fun t => utf8_encode (ind ++ ind ++ t)) more ->
+  no_double_prefix ind rest ->
+  parse_entry_summary_more ind ln (ls ++ rest) acc = (acc ++ map utf8_encode more, None, rest, (ln + length more)%nat).
+Proof.
+  intros W ind. induction more as [|t more IH]; intros ls ln rest acc M R.
+  - destruct ls; [|discriminate]. cbn [app map length]. rewrite app_nil_r, Nat.add_0_r.
+    destruct rest as [|l r]; [reflexivity|]. cbn [parse_entry_summary_more]. cbn in R. rewrite R. reflexivity.
+  - destruct ls as [|l ls]; [discriminate|]. cbn [map] in M. injection M as Ml M.
+    cbn [forallb] in W. apply andb_true_iff in W as [Wt W]. apply andb_true_iff in Wt as [Tok Nb].
+    apply negb_true_iff in Nb.
+    cbn [app parse_entry_summary_more]. rewrite Ml.
+    assert (Iok : text_ok ind = true) by (subst ind; destruct i; reflexivity).
+    assert (Ias : ascii ind = true) by (apply indent_ascii).
+    rewrite decode_encode by (rewrite !text_ok_app, Iok, Tok; reflexivity).
+    rewrite !utf8_encode_app, (utf8_encode_ascii _ Ias), app_assoc, has_prefix_app.
+    replace (2 * length ind)%nat with (length (ind ++ ind)) by (rewrite app_length; lia).
+    rewrite app_assoc, skipn_pre.
+    rewrite all_blank_runes_eq, Nb.
+    destruct t as [|c t']; [discriminate|]. change (Nat.eqb (length (c :: t')) 0) with false. cbn [orb].
+    rewrite (IH W ls (S ln) rest (acc ++ [str (c :: t')]) M R).
+    cbn [map length]. rewrite <- !app_assoc. cbn [app]. replace (S ln + length more)%nat with (ln + S (length more))%nat by lia.
+    reflexivity.
+Qed.
+
+(* ================= entries ================= *)
+
+Lemma parse_entries_step k style ln l rest es errs :
+  parse_entries (S k) style ln (l :: rest) es errs =
+      let cs := utf8_decode (l_text l) in
+      if negb (has_prefix style (l_text l)) || is_space_or_tab (peek cs (length style))
+      then (es, errs ++ [mk_err ln 0 (zlen cs) ErrorIllegalIndentation])
+      else
+        match parse_entry_value ln cs (length style) with
+        | EvErr e => parse_entries k style (S ln) rest es (errs ++ [e])
+        | ev =>
+          let pos := match ev with EvDur _ p => p | EvRange _ p => p | EvOpen _ _ p => p | EvErr _ => O end in
+          let first := if is_space_or_tab (peek cs pos) then [str (skipn (S pos) cs)] else [[]] in
+          let '(summary, serr, rest', ln') := parse_entry_summary_more style (S ln) rest first in
+          match serr with
+          | Some e => parse_entries k style ln' rest' es (errs ++ [e])
+          | None =>
+            match ev with
+            | EvDur d _ => parse_entries k style ln' rest' (es ++ [{| e_value := VDuration d; e_summary := summary |}]) errs
+            | EvRange r _ => parse_entries k style ln' rest' (es ++ [{| e_value := VRange r; e_summary := summary |}]) errs
+            | EvOpen o sp p =>
+              if has_open_entry es
+              then let p' := if is_space_or_tab (peek cs p) then S p else p in
+                   parse_entries k style ln' rest' es (errs ++ [mk_err ln (Z.of_nat sp) (Z.of_nat p' - Z.of_nat sp) ErrorDuplicateOpenRange])
+              else parse_entries k style ln' rest' (es ++ [{| e_value := VOpen o; e_summary := summary |}]) errs
+            | EvErr _ => (es, errs)
+            end
+          end
+        end.
+Proof. reflexivity. Qed.
+
+Definition first_tail (e : s_entry) : text := match se_first e with Some t => 32%N :: t | None => [] end.
+
+Lemma first_tail_ok e : tail_ok (first_tail e).
+Proof. unfold first_tail. destruct (se_first e); cbn; trivial. Qed.
+
+Lemma text_ok_repeat c n : scalar c && negb (c =? 10)%N = true -> text_ok (repeat c n) = true.
+Proof. intros H. induction n; [reflexivity|]. cbn [repeat]. unfold text_ok in *. cbn [forallb]. rewrite H. exact IHn. Qed.
+
+Lemma render_value_text_ok v : wf_value v = true -> text_ok (render_value v) = true /\ ascii (render_value v) = true.
+Proof.
+  intros W. destruct v as [d | a sp1 sp2 b | a sp1 sp2 extra]; cbn [wf_value render_value] in *.
+  - unfold wf_dur in W. apply andb_true_iff in W as [Sh _]. split; [|apply render_dur_ascii; exact Sh].
+    pose proof (render_dur_dur_chars d Sh) as H. revert H. apply forallb_impl. intros c. unfold dur_char, is_digit, scalar. lia.
+  - apply andb_true_iff in W as [W _]. apply andb_true_iff in W as [Wa Wb].
+    rewrite !text_ok_app, !ascii_app. rewrite (render_time_text_ok a Wa), (render_time_text_ok b Wb), (render_time_ascii a Wa), (render_time_ascii b Wb).
+    unfold spaces. rewrite !text_ok_repeat, !ascii_repeat by reflexivity. split; reflexivity.
+  - rewrite !text_ok_app, !ascii_app. rewrite (render_time_text_ok a W), (render_time_ascii a W).
+    unfold spaces. rewrite !text_ok_repeat, !ascii_repeat by reflexivity. split; reflexivity.
+Qed.
+
+Section EntryStep.
+  Variables (i : indent) (e : s_entry).
+  Hypothesis We : wf_entry e = true.
+  Let ind := indent_text i.
+  Let v := se_value e.
+  Let cs := ind ++ render_value v ++ first_tail e.
+
+  Lemma entry_line_text_ok : text_ok cs = true.
+  Proof.
+    unfold wf_entry in We. apply andb_true_iff in We as [W1 Wm]. apply andb_true_iff in W1 as [Wv Wf].
+    unfold cs. rewrite !text_ok_app. destruct (render_value_text_ok v Wv) as [-> _].
+    replace (text_ok ind) with true by (unfold ind; destruct i; reflexivity).
+    unfold first_tail. destruct (se_first e) as [t|]; [|reflexivity]. change (text_ok (32%N :: t)) with (text_ok t). rewrite Wf. reflexivity.
+  Qed.
+
+  (* the bytes of the entry's first line: the indentation, then a non-blank ASCII character *)
+  Lemma entry_line_bytes : exists c x, utf8_encode cs = ind ++ c :: x /\ is_space_or_tab c = false.
+  Proof.
+    unfold wf_entry in We. apply andb_true_iff in We as [W1 Wm]. apply andb_true_iff in W1 as [Wv Wf].
+    pose proof (render_value_head v Wv) as Hd. destruct (render_value_text_ok v Wv) as [_ As].
+    unfold cs, ind. rewrite utf8_encode_app, (utf8_encode_ascii _ (indent_ascii i)).
+    destruct (render_value v) as [|c r]; [contradiction|].
+    cbn [ascii forallb] in As. apply andb_true_iff in As as [Hc _].
+    cbn [app]. rewrite (encode_cons_ascii _ _ Hc). eexists; eexists; split; [reflexivity|exact Hd].
+  Qed.
+
+  Lemma entry_step k ln l ls_m rest es errs :
+    l_text l = utf8_encode cs ->
+    map l_text ls_m = map (fun t => utf8_encode (ind ++ ind ++ t)) (se_more e) ->
+    no_double_prefix ind rest ->
+    (is_open_value v = true -> has_open_entry es = false) ->
+    parse_entries (S k) ind ln (l :: ls_m ++ rest) es errs =
+    parse_entries k ind (S ln + length (se_more e)) rest (es ++ [denote_entry e]) errs.
+  Proof.
+    intros Ml Mm R Hopen.
+    pose proof entry_line_text_ok as Tok. destruct entry_line_bytes as (c & x & Eb & Hc).
+    pose proof We as We'. unfold wf_entry in We'. apply andb_true_iff in We' as [W1 Wm]. apply andb_true_iff in W1 as [Wv Wf].
+    rewrite parse_entries_step. cbv zeta. rewrite Ml, (decode_encode _ Tok).
+    rewrite Eb, has_prefix_app. change (negb true) with false. rewrite orb_false_l.
+    assert (Hpk : peek cs (length ind) = c).
+    { pose proof (render_value_head v Wv) as Hd. destruct (render_value_text_ok v Wv) as [_ As].
+      unfold cs in *. destruct (render_value v) as [|c' r']; [contradiction|].
+      cbn [ascii forallb] in As. apply andb_true_iff in As as [Hc' _].
+      unfold ind in Eb. rewrite utf8_encode_app, (utf8_encode_ascii _ (indent_ascii i)) in Eb. cbn [app] in Eb. rewrite (encode_cons_ascii _ _ Hc') in Eb.
+      apply app_inv_head in Eb. injection Eb as -> _.
+      apply (peek_at_cons _ _ ind c (r' ++ first_tail e)); reflexivity. }
+    rewrite Hpk, Hc.
+    unfold cs at 1. rewrite (parse_entry_value_spec ln ind v (first_tail e) Wv (first_tail_ok e)). fold cs.
+    set (pos := (length ind + length (render_value v))%nat).
+    (* the summary text on the entry's own line *)
+    assert (Hfirst : (if is_space_or_tab (peek cs pos) then [str (skipn (S pos) cs)] else [[]])
+                     = [match se_first e with Some t => utf8_encode t | None => [] end]).
+    { unfold first_tail in cs. destruct (se_first e) as [t|].
+      - rewrite (peek_at_cons cs pos (ind ++ render_value v) 32%N t ltac:(unfold cs; app_eq) ltac:(unfold pos; clear; len_eq)).
+        change (is_space_or_tab 32) with true. cbv iota.
+        replace (S pos) with (length (ind ++ render_value v ++ [32%N])) by (unfold pos; clear; len_eq).
+        replace cs with ((ind ++ render_value v ++ [32%N]) ++ t) by (unfold cs; app_eq).
+        rewrite skipn_pre. reflexivity.
+      - rewrite (peek_at_end cs pos ltac:(unfold cs, pos; clear; len_eq)). reflexivity. }
+    assert (Hmore : forall first, parse_entry_summary_more ind (S ln) (ls_m ++ rest) first
+                    = (first ++ map utf8_encode (se_more e), None, rest, (S ln + length (se_more e))%nat)).
+    { intros first. apply (parse_more_spec i (se_more e) Wm); assumption. }
+    unfold denote_entry. fold v.
+    destruct v as [d | a sp1 sp2 b | a sp1 sp2 extra] eqn:Ev; cbn [denote_value ev_of]; cbv iota beta; fold pos;
+      rewrite Hfirst, Hmore; cbv iota beta.
+    - reflexivity.
+    - reflexivity.
+    - rewrite (Hopen eq_refl). reflexivity.
+  Qed.
+End EntryStep.
